@@ -33,6 +33,15 @@ class ToolError(Exception):
     pass
 
 
+class CodeAborted(Exception):
+    """The code under test ended the driver process by asking for a single allocation beyond 4 GiB (exit 4, harness/src/alloc.rs) in a
+    driver without per-item restart.  Not a tool failure: the call produced neither a value nor an error.  bin/check reports it as a
+    violation of the property being checked, with the job file as the replay."""
+    def __init__(self, sub, job_path, size, item):
+        super().__init__("driver %s: allocation request of %s bytes (item %s)" % (sub, size, item))
+        self.sub, self.job_path, self.size, self.item = sub, job_path, size, item
+
+
 def tier():
     return os.environ.get("VERIF_TIER", "quick")
 
@@ -105,6 +114,10 @@ def run_drive(sub, job, wd, profile="release", timeout=1800, crate=HARNESS, env=
         p = subprocess.run([exe, sub, jp], capture_output=True, text=True, timeout=timeout, env=e)
     except subprocess.TimeoutExpired:
         raise ToolError("driver %s timed out after %ss" % (sub, timeout))
+    if p.returncode == 4:
+        m = re.search(r"VERIF-OOM id=(\d+) size=(\d+)", p.stderr)
+        if m:
+            raise CodeAborted(sub, jp, int(m.group(2)), int(m.group(1)))
     if p.returncode != 0:
         sys.stderr.write(p.stdout[-2000:] + p.stderr[-4000:])
         raise ToolError("driver %s exited %s" % (sub, p.returncode))
